@@ -28,25 +28,33 @@ Fixpoint b64_encode (l : list N) : list ascii :=
   | [] => []
   end%N.
 
+Definition pad : ascii := "=".
+
 Fixpoint b64_groups (l : list ascii) : option (list N) :=
   match l with
   | [] => Some []
-  | [a; b; "="; "="] =>
-    match b64_val a, b64_val b with
-    | Some x, Some y => Some [x * 4 + y / 16]
-    | _, _ => None
-    end
-  | [a; b; c; "="] =>
-    match b64_val a, b64_val b, b64_val c with
-    | Some x, Some y, Some z => Some [x * 4 + y / 16; (y mod 16) * 16 + z / 4]
-    | _, _, _ => None
-    end
   | a :: b :: c :: d :: r =>
-    match b64_val a, b64_val b, b64_val c, b64_val d, b64_groups r with
-    | Some x, Some y, Some z, Some w, Some rest =>
-      Some ((x * 4 + y / 16) :: ((y mod 16) * 16 + z / 4) :: ((z mod 4) * 64 + w) :: rest)
-    | _, _, _, _, _ => None
-    end
+    if Ascii.eqb d pad then
+      match r with
+      | [] =>
+        if Ascii.eqb c pad then
+          match b64_val a, b64_val b with
+          | Some x, Some y => Some [x * 4 + y / 16]
+          | _, _ => None
+          end
+        else
+          match b64_val a, b64_val b, b64_val c with
+          | Some x, Some y, Some z => Some [x * 4 + y / 16; (y mod 16) * 16 + z / 4]
+          | _, _, _ => None
+          end
+      | _ => None
+      end
+    else
+      match b64_val a, b64_val b, b64_val c, b64_val d, b64_groups r with
+      | Some x, Some y, Some z, Some w, Some rest =>
+        Some ((x * 4 + y / 16) :: ((y mod 16) * 16 + z / 4) :: ((z mod 4) * 64 + w) :: rest)
+      | _, _, _, _, _ => None
+      end
   | _ => None
   end%N.
 
